@@ -109,8 +109,13 @@ pub async fn dispatch_command<W: AsyncWrite + Unpin>(
             }
         }
         _ => {
-            error!(target: "sneldb::dispatch", ?cmd, "Unreachable command variant encountered");
-            unreachable!("dispatch_command called with non-command")
+            // Variants without a handler (e.g. `Batch`, which both the BATCH parser and the
+            // HTTP JSON form can produce) are answered with an error instead of panicking.
+            error!(target: "sneldb::dispatch", ?cmd, "Command variant without a handler");
+            let resp = Response::error(StatusCode::BadRequest, "Command is not supported");
+            writer.write_all(&renderer.render(&resp)).await?;
+            writer.flush().await?;
+            Ok(())
         }
     }
 }
